@@ -64,6 +64,9 @@ def split_lines(text):
 
 
 IDENT = re.compile(r"[A-Za-z_][A-Za-z0-9_]*")
+# names the line pools define (labels, constants, macros, import aliases): positions where rename / definition have answers
+SYMBOLS = {"start", "data", "inner", "k", "v", "mac", "arg", "local", "doc", "bsym", "bscope", "binner", "bk", "bdoc", "csym",
+           "cscope", "cinner", "ck", "alias"}
 
 
 def utf16_len(s):
@@ -77,8 +80,12 @@ def gen_position(rng, text, cls=None):
     nonascii = [i for i, l in enumerate(lines) if any(ord(c) > 127 for c in l)]
     if cls == "inchar" and not nonascii:
         cls = "eol1"
-    if cls == "ident":
+    if cls in ("ident", "symbol"):
         occ = [(i, m.start(), m.end()) for i, l in enumerate(lines) for m in IDENT.finditer(l)]
+        sym = [o for o in occ if lines[o[0]][o[1]:o[2]] in SYMBOLS]
+        if sym and (cls == "symbol" or rng.random() < 0.5):
+            occ = sym
+        cls = "ident"
         if not occ:
             cls = "any"
         else:
@@ -204,7 +211,20 @@ def gen_history(rng, max_events=40):
             f = rng.choice(sorted(buffers))
             del buffers[f]
             events.append({"ev": "close", "file": f})
-        elif r < 0.40:
+        elif r < 0.47 and buffers:
+            # a rename (which must leave no trace in the server) followed by requests whose answers a renamed symbol would change
+            f = rng.choice(sorted(buffers))
+            ev = gen_request(rng, buffers, disk, method="textDocument/rename", file=f, cls="symbol")
+            events.append(ev)
+            for m in ["textDocument/completion"] + rng.sample(["textDocument/rename", "textDocument/prepareRename",
+                                                               "textDocument/definition", "textDocument/hover", "workspace/symbol"],
+                                                              rng.randrange(1, 3)):
+                if len(events) < target:
+                    e2 = gen_request(rng, buffers, disk, method=m, file=f, cls="symbol")
+                    if m in ("textDocument/completion", "textDocument/rename") and rng.random() < 0.8:
+                        e2["line"], e2["ch"] = ev["line"], ev["ch"]
+                    events.append(e2)
+        elif r < 0.49:
             # open a file that is not part of the project
             f = rng.choice(["other.asm", "other.asm", "untitled:Untitled-1"])
             t = gen_text(rng, f)
